@@ -169,9 +169,17 @@ impl Part for C01Part {
         let segs = (f.size as u64).div_ceil(sc.entities[0].cfg.seg as u64);
         let data_lost = !undelivered_ranges(sc, &tr, 0).is_empty();
         let weak_checksum = sc.entities[0].cfg.null_checksum || matches!(f.class, ContentClass::Neutral | ContentClass::Zero | ContentClass::ZeroRuns { .. } | ContentClass::ZeroTail { .. });
-        if (eff > 0 && segs >= 2) || (weak_checksum && data_lost) {
+        // puppet family: data beyond the announced size reached the receiver
+        let oversize = !sc.entities[0].present
+            && tr.deliveries.iter().any(|(_, to, di)| {
+                *to == p.to
+                    && matches!(tr.dgrams[*di].pdu.as_ref().map(|x| &x.payload),
+                        Some(cfdp_core::pdu::PDUPayload::FileData(cfdp_core::pdu::FileDataPDU::Unsegmented(fd))) if fd.offset + fd.file_data.len() as u64 > f.size as u64)
+            });
+        if (eff > 0 && segs >= 2) || (weak_checksum && data_lost) || oversize {
             out = out.nt(hash_json(sc));
         }
+        out = out.class_if(oversize, "data-beyond-announced-size");
         out = out
             .class_if(p.unack, "unack")
             .class_if(!p.unack, "ack")
@@ -192,12 +200,114 @@ impl Part for C01Part {
     }
 }
 
+/// E3: a puppet sender whose data does not stop at the announced file size: Metadata and EOF announce N bytes (and the checksum of
+/// those N bytes), but a File Data PDU for [N, N+K) turns up as well - before the EOF, between the EOF and the rest of the
+/// in-range data, or last. Whatever the receiver makes of it, a delivery it reports complete has exactly the announced bytes.
+pub fn puppet_oversize(seed: u64) -> C01Case {
+    use crate::puppet::{modular, Pup};
+    let mut rng = Prng::new(seed);
+    let seg = *rng.pick(&[16u16, 32]);
+    let null = rng.chance(1, 2);
+    let cfg = CfgSpec {
+        seg,
+        max_count: 2,
+        ti: 20,
+        ta: 2,
+        tn: 2,
+        crc: rng.chance(1, 4),
+        closure: rng.chance(1, 2),
+        null_checksum: null,
+        nak: NakSpec { immediate: rng.chance(1, 2), delay_ms: *rng.pick(&[0u64, 0, 100]) },
+        handlers: vec![],
+    };
+    let mut sc = Scenario::two_entities(cfg.clone(), cfg);
+    sc.entities[0].present = false;
+    sc.seed = rng.next();
+    let nsegs = 1 + rng.below(4);
+    let size = nsegs * seg as u64;
+    let unack = rng.chance(1, 3);
+    sc.puts.push(simple_put(size as u32, ContentClass::Random, rng.next(), unack));
+    let content = sc.puts[0].file.as_ref().unwrap().bytes();
+    let pup = Pup::for_put(&sc, 0);
+    // the excess: zeros (invisible to the modular checksum), a checksum-neutral word pair, or random bytes
+    let k = 4 * (1 + rng.below(seg as u64 / 4)) as usize;
+    let excess: Vec<u8> = match rng.below(3) {
+        0 => vec![0u8; k],
+        1 => {
+            let mut v = vec![];
+            while v.len() < k {
+                v.extend([0, 0, 0, 1, 0xFF, 0xFF, 0xFF, 0xFF]);
+            }
+            v.truncate(k - k % 8);
+            if v.is_empty() {
+                v = vec![0, 0, 0, 1, 0xFF, 0xFF, 0xFF, 0xFF];
+            }
+            v
+        }
+        _ => rng.bytes(k),
+    };
+    #[derive(Clone)]
+    enum It {
+        D(u64),
+        E,
+        X,
+    }
+    // a subset of the in-range segments first, then EOF / excess / the rest in a drawn order
+    let mut first: Vec<It> = vec![];
+    let mut rest: Vec<It> = vec![];
+    for i in 0..nsegs {
+        if rng.chance(1, 2) {
+            first.push(It::D(i));
+        } else {
+            rest.push(It::D(i));
+        }
+    }
+    let mut tail: Vec<It> = match rng.below(4) {
+        0 => vec![It::X, It::E],
+        1 => vec![It::E, It::X],
+        2 => vec![It::E],
+        _ => vec![It::X],
+    };
+    let eof_in_tail = tail.iter().any(|x| matches!(x, It::E));
+    let x_in_tail = tail.iter().any(|x| matches!(x, It::X));
+    tail.extend(rest);
+    if !x_in_tail {
+        tail.insert(rng.below(tail.len() as u64 + 1) as usize, It::X);
+    }
+    if !eof_in_tail {
+        tail.insert(rng.below(tail.len() as u64 + 1) as usize, It::E);
+    }
+    let mut t = 10u64;
+    let inject = |sc: &mut Scenario, t: u64, bytes: Vec<u8>| {
+        sc.actions.push(Action { trigger: Trigger::AtMs(t), entity: 0, kind: ActionKind::Inject { to: 1, as_from: 0, bytes } });
+    };
+    let closure = cfg_closure(&sc);
+    inject(&mut sc, t, pup.metadata(size, "src.bin", "dst.bin", closure, null, vec![]));
+    for it in first.into_iter().chain(tail) {
+        t += 20;
+        let bytes = match it {
+            It::D(i) => pup.data(i * seg as u64, &content[(i * seg as u64) as usize..((i + 1) * seg as u64) as usize]),
+            It::E => pup.eof(cfdp_core::pdu::Condition::NoError, if null { 0 } else { modular(&content) }, size),
+            It::X => pup.data(size, &excess),
+        };
+        inject(&mut sc, t, bytes);
+    }
+    // the sender acknowledges whatever Finished PDU comes
+    inject(&mut sc, t + 400, pup.ack_finished(cfdp_core::pdu::Condition::NoError));
+    sc.horizon_ms = 40_000;
+    C01Case { sc }
+}
+
+fn cfg_closure(sc: &Scenario) -> bool {
+    sc.entities[1].cfg.closure
+}
+
 pub fn run(ctx: &mut Ctx) {
     ctx.rule = "proptest scenarios: one Put between two real daemons; segment size in {16,24,32,64,1024}, file size in {0,1,seg-1,seg,seg+1,2seg,3seg-1,3seg+1,4seg,5seg+3,8seg,12seg}, \
 content in {random, zero, zero runs aligned to segments, checksum-neutral word pairs, zero tail}, both modes, closure, Modular/Null checksum, CRC, 6 NAK procedures (independent \
 for the receiver), limits 1..4, timeouts 1..5 s, id widths 1/2/4/8, serialisation delay 0/1/10 ms, latency 0..5 ms, 0..5 faults over the first 30 datagrams of either direction \
-(drop, duplicate, delay, single-bit corruption only with the CRC on), tokio scheduler seed; two exhaustive families: one lost datagram at every position under weak checksums, and - without CRC, modular checksum - one flipped bit in the file data of each segment. Non-trivial = a fault hit a datagram and the file has >= 2 segments, or the content/checksum \
-is weak (null checksum, neutral, zero runs, zero tail) and some data byte never reached the receiver; distinct by the whole scenario."
+(drop, duplicate, delay, single-bit corruption only with the CRC on), tokio scheduler seed; two exhaustive families: one lost datagram at every position under weak checksums, and - without CRC, modular checksum - one flipped bit in the file data of each segment; and a puppet-sender family in which a File Data PDU beyond the announced file size (zeros, checksum-neutral or random bytes) arrives before the EOF, between EOF and the rest of the data, or last. Non-trivial = a fault hit a datagram and the file has >= 2 segments, or the content/checksum \
+is weak (null checksum, neutral, zero runs, zero tail) and some data byte never reached the receiver, or data beyond the announced size reached the receiver; distinct by the whole scenario."
         .into();
     ctx.assumptions = vec![
         "bit corruption is injected only when the CRC option is on (without it CFDP has no protection against payload corruption of metadata/EOF)".into(),
@@ -260,5 +370,9 @@ is weak (null checksum, neutral, zero runs, zero tail) and some data byte never 
     }
     ctx.section = "one-flipped-data-bit-no-crc".into();
     ctx.drive_list(&part, cases, true);
+    let seed = ctx.seed;
+    let n = ctx.tier.pick(8_000u64, 300_000);
+    ctx.section = "puppet-data-beyond-announced-size".into();
+    ctx.drive_indexed(&part, n, false, |i| puppet_oversize(mix(seed ^ 0xC01E, i)));
     ctx.section.clear();
 }
